@@ -140,34 +140,36 @@ Print Assumptions resolve_pattern_id.
    precedence oracle that picks from the matching set: the handler reached is registered
    for the method and matches; Vars is what that pattern captured, the catch-all under its
    own name; the handler and the middlewares after next are told the registered pattern,
-   and (URL path not empty) so was every middleware that asked before next — pattern and
+   and so was every middleware that asked before next — pattern and
    Vars; otherwise 404 with the negotiated encoder, or 405 when only another method matches.
    goa's SmartRedirectSlashes, when mounted, is a transparent layer (every recording
    middleware runs, same dispatch, same pattern and Vars) except for the requests it
-   redirects: decoded path longer than "/", no route of the method matches it, one matches
-   it with the trailing slash toggled — then 301 to that path and nothing after it runs *)
+   redirects: the routed string (RawPath when set, else Path) is longer than "/", no route
+   of the method matches it, one matches it with the trailing slash toggled — then 301 to
+   that string and nothing after it runs; it never answers a request that a route matches *)
 Theorem serve_spec pick m me wire pre ar ap : sound pick -> reachable m ->
   match set_path wire with
   | None => serve pick m me wire pre ar ap = None
   | Some (path, raw) =>
     let segs := path_segs (route_path path raw) in
+    let sp := match_path path raw in
     let n := asking (mws m) pre in
     exists o, serve pick m me wire pre ar ap = Some o /\
       match o_out o with
       | Handled h vs hp =>
-        smart_redirects m me path = false /\ o_ran o = rec_ids (mws m) /\
+        o_ran o = rec_ids (mws m) /\
         exists r capt, In r (cands m me segs) /\ r_h r = h /\ captured (r_pat r) wire = Some capt /\
           vs = map (rename (opt_name (catchall_name (r_pat r)))) capt /\
           hp = goa_render (r_pat r) /\ o_post o = goa_render (r_pat r) /\
-          (wire <> [] -> o_pre o = repeat (hp, vs) n)
-      | NotFound e => smart_redirects m me path = false /\ o_ran o = rec_ids (mws m) /\
+          o_pre o = repeat (hp, vs) n
+      | NotFound e => smart_redirects m me sp = false /\ o_ran o = rec_ids (mws m) /\
           cands m me segs = [] /\ other_method_matches m segs = false /\ e = response_encoder ar ap /\
-          (wire <> [] -> o_pre o = repeat ([], []) n /\ o_post o = [])
-      | MethodNotAllowed => smart_redirects m me path = false /\ o_ran o = rec_ids (mws m) /\
+          o_pre o = repeat ([], []) n /\ o_post o = []
+      | MethodNotAllowed => smart_redirects m me sp = false /\ o_ran o = rec_ids (mws m) /\
           cands m me segs = [] /\ other_method_matches m segs = true /\
-          (wire <> [] -> o_pre o = repeat ([], []) n /\ o_post o = [])
-      | Redirected loc => smart_redirects m me path = true /\ loc = hex_escape_non_ascii (toggle_slash path) /\
-          o_ran o = rec_ids (before_smart (mws m))
+          o_pre o = repeat ([], []) n /\ o_post o = []
+      | Redirected loc => smart_redirects m me sp = true /\ cands m me segs = [] /\
+          loc = hex_escape_non_ascii (toggle_slash sp) /\ o_ran o = rec_ids (before_smart (mws m))
       end
   end.
 Proof. intros Hs Hm. exact (Lemmas.serve_spec pick Hs m me wire pre ar ap (Lemmas.reachable_wf m Hm)). Qed.
@@ -176,7 +178,7 @@ Print Assumptions serve_spec.
 (* the pattern (and the variables) reported to a middleware before next are the ones
    reported to the handler and after next *)
 Theorem resolve_before_routing_agrees pick m me wire pre ar ap o h vs hp : sound pick -> reachable m ->
-  serve pick m me wire pre ar ap = Some o -> o_out o = Handled h vs hp -> wire <> [] ->
+  serve pick m me wire pre ar ap = Some o -> o_out o = Handled h vs hp ->
   (forall a, In a (o_pre o) -> a = (hp, vs)) /\ o_post o = hp /\
   length (o_pre o) = asking (mws m) pre /\ o_ran o = rec_ids (mws m).
 Proof. intros Hs Hm. exact (pre_agrees pick m me wire pre ar ap o h vs hp Hs (Lemmas.reachable_wf m Hm)). Qed.
@@ -189,22 +191,25 @@ Theorem dispatch_sound pick m me wire pre ar ap o h vs hp : sound pick -> reacha
 Proof. intros Hs Hm. exact (Lemmas.dispatch_sound pick Hs m me wire pre ar ap o h vs hp (Lemmas.reachable_wf m Hm)). Qed.
 Print Assumptions dispatch_sound.
 
-(* (SmartRedirectSlashes not answering) a handler runs iff the matching set is not empty;
-   404 iff no route of any method matches the path; 405 iff only routes of other methods do *)
+(* a handler runs iff the matching set is not empty; otherwise 301 iff SmartRedirectSlashes
+   is mounted and the path matches with its slash toggled, else 404 iff no route of any
+   method matches the path, 405 iff only routes of other methods do *)
 Theorem dispatch_404 pick m me wire pre ar ap o path raw : sound pick -> reachable m ->
   serve pick m me wire pre ar ap = Some o -> set_path wire = Some (path, raw) ->
-  smart_redirects m me path = false ->
   let segs := path_segs (route_path path raw) in
+  let sp := match_path path raw in
   ((exists h vs hp, o_out o = Handled h vs hp) <-> cands m me segs <> []) /\
-  (o_out o = NotFound (response_encoder ar ap) <-> cands m me segs = [] /\ other_method_matches m segs = false) /\
-  (o_out o = MethodNotAllowed <-> cands m me segs = [] /\ other_method_matches m segs = true).
+  (o_out o = NotFound (response_encoder ar ap) <->
+     cands m me segs = [] /\ smart_redirects m me sp = false /\ other_method_matches m segs = false) /\
+  (o_out o = MethodNotAllowed <->
+     cands m me segs = [] /\ smart_redirects m me sp = false /\ other_method_matches m segs = true) /\
+  ((exists loc, o_out o = Redirected loc) <-> smart_redirects m me sp = true).
 Proof. intros Hs Hm. exact (dispatch_unhandled_iff pick Hs m me wire pre ar ap o path raw (Lemmas.reachable_wf m Hm)). Qed.
 Print Assumptions dispatch_404.
 
 (* exactly one registered route matches: its handler runs, its pattern is reported *)
 Theorem dispatch_unique pick m me wire pre ar ap o path raw r : sound pick -> reachable m ->
   serve pick m me wire pre ar ap = Some o -> set_path wire = Some (path, raw) ->
-  smart_redirects m me path = false ->
   cands m me (path_segs (route_path path raw)) = [r] ->
   exists vs, o_out o = Handled (r_h r) vs (goa_render (r_pat r)) /\ o_post o = goa_render (r_pat r).
 Proof. intros Hs Hm. exact (Lemmas.dispatch_unique pick Hs m me wire pre ar ap o path raw r (Lemmas.reachable_wf m Hm)). Qed.
@@ -213,11 +218,9 @@ Print Assumptions dispatch_unique.
 (* end to end: the URL built for a registered pattern is never answered 404/405; a
    handler of the same method whose pattern matches runs and is told its own pattern, as
    is every middleware before and after next; when it is the handler of that pattern,
-   Vars maps every wildcard name to `returned`. Hypothesis: SmartRedirectSlashes is not
-   mounted, or no value contains / ; , (see smart_redirect_decoded_refuted) *)
+   Vars maps every wildcard name to `returned` — with or without SmartRedirectSlashes *)
 Theorem built_request_served pick m r ip pre ar ap : sound pick -> reachable m ->
   In r (routes m) -> r_pat r = pat_of ip -> wf_ipat ip = true ->
-  existsb is_smart (mws m) = false \/ forallb neutral (ivals ip) = true ->
   exists o r' vs,
     serve pick m (r_meth r) (build_url ip) pre ar ap = Some o /\
     In r' (routes m) /\ r_meth r' = r_meth r /\ captured (r_pat r') (build_url ip) <> None /\
@@ -268,48 +271,44 @@ Theorem resolve_decoded_path_regression ar ap :
 Proof. exact (resolve_decoded_path_served ar ap). Qed.
 Print Assumptions resolve_decoded_path_regression.
 
-(* what is left (finding): a URL with an empty path is routed by chi as "/", the early
-   call matches "" and reports no pattern — the hypothesis `wire <> []` above is needed *)
-Theorem resolve_empty_path_refuted :
+(* regression (the follow-up repair): a URL with an empty path is routed by chi as "/" and
+   the early call now matches "/" too *)
+Theorem resolve_empty_path_regression :
   exists m, reachable m /\ forall pick ar ap, sound pick ->
     exists o, serve pick m GET [] [true] ar ap = Some o /\
-      o_pre o = [([], [])] /\ o_out o = Handled 0 [] [slash] /\ o_post o = [slash].
+      o_pre o = [([slash], [])] /\ o_out o = Handled 0 [] [slash] /\ o_post o = [slash].
 Proof.
   exists w_mux4. split; [exact w_mux4_reachable|]. intros pick ar ap Hs.
   destruct (empty_path_served pick Hs ar ap) as (o & E & H1 & H2 & H3 & _).
   exists o. split; [exact E|]. split; [exact H1|]. split; [exact H2|exact H3].
 Qed.
-Print Assumptions resolve_empty_path_refuted.
+Print Assumptions resolve_empty_path_regression.
 
 (* ----------------------------------- http/middleware.SmartRedirectSlashes via Use *)
 
-(* it never answers a request that chi routes on the decoded path (RawPath empty) and that
-   a route of the method matches: pattern, Vars and dispatch are those of serve_spec *)
-Theorem smart_transparent_partial m me wire path : set_path wire = Some (path, []) -> wire <> [] ->
-  cands m me (path_segs (route_path path [])) <> [] -> smart_redirects m me path = false.
-Proof. exact (smart_quiet m me wire path). Qed.
-Print Assumptions smart_transparent_partial.
+(* it never answers a request that a route of the method matches (as chi routes it):
+   pattern, Vars and dispatch are those of serve_spec *)
+Theorem smart_transparent m me path raw :
+  cands m me (path_segs (route_path path raw)) <> [] -> smart_redirects m me (match_path path raw) = false.
+Proof. exact (smart_quiet m me path raw). Qed.
+Print Assumptions smart_transparent.
 
 Theorem smart_not_mounted m me path : existsb is_smart (mws m) = false -> smart_redirects m me path = false.
 Proof. exact (no_smart_quiet m me path). Qed.
 Print Assumptions smart_not_mounted.
 
-(* the finding: it decides on the decoded URL.Path. Use(SmartRedirectSlashes);
-   Handle(GET,"/u/{id}"); the URL built for id = "a/" is /u/a%2F, which that pattern
-   matches (and would return "a/") — the client is sent to /u/a instead, whatever chi's precedence *)
-Theorem smart_redirect_decoded_refuted :
-  exists m ip r, reachable m /\ wf_ipat ip = true /\ routes m = [r] /\ r_pat r = pat_of ip /\
-    captured (r_pat r) (build_url ip) = Some (icaps idv ip) /\
-    forall pick ar ap, sound pick ->
-      exists o loc, serve pick m (r_meth r) (build_url ip) [] ar ap = Some o /\ o_out o = Redirected loc.
-Proof.
-  exists w_mux5, w_ip5, {| r_meth := GET; r_pat := pat_of w_ip5; r_h := 0 |}.
-  destruct (smart_redirect_served first_pick first_pick_sound MEmpty None) as (H1 & H2 & H3 & _).
-  split; [exact w_mux5_reachable|]. split; [exact H1|]. split; [exact H2|]. split; [reflexivity|]. split; [exact H3|].
-  intros pick ar ap Hs. destruct (smart_redirect_served pick Hs ar ap) as (_ & _ & _ & o & E1 & E2).
-  exists o, [x2f; x75; x2f; x61]. split; [exact E1|exact E2].
-Qed.
-Print Assumptions smart_redirect_decoded_refuted.
+(* regression (the repair of SmartRedirectSlashes): Use(SmartRedirectSlashes);
+   Handle(GET,"/u/{id}"); the URL built for id = "a/" is /u/a%2F: it reaches the handler with
+   id = "a/"; /u/a%2F/ is redirected to /u/a%2F, the client's escaping kept — whatever
+   chi's precedence *)
+Theorem smart_redirect_regression pick ar ap : sound pick ->
+  wf_ipat w_ip5 = true /\ routes w_mux5 = [{| r_meth := GET; r_pat := pat_of w_ip5; r_h := 0 |}] /\
+  (exists o, serve pick w_mux5 GET (build_url w_ip5) [] ar ap = Some o /\
+             o_out o = Handled 0 [(b_id, [x61; x2f])] (goa_render (pat_of w_ip5))) /\
+  (exists o, serve pick w_mux5 GET (build_url w_ip5 ++ [slash]) [] ar ap = Some o /\
+             o_out o = Redirected (build_url w_ip5)).
+Proof. intro Hs. exact (smart_redirect_served pick Hs ar ap). Qed.
+Print Assumptions smart_redirect_regression.
 
 (* ------------------------------------------------------- the not-found body *)
 
